@@ -155,8 +155,8 @@ def dup_param_with_composite_arg(fam, t):
 
 def run(ctx):
     rng = ctx.rng
-    nfam = 5 if ctx.tier == "quick" else 30
-    nexpr = 60 if ctx.tier == "quick" else 250
+    nfam = 12 if ctx.tier == "quick" else 60
+    nexpr = 120 if ctx.tier == "quick" else 400
     for fi in range(nfam):
         fam = CP.gen_family(rng)
         try:
